@@ -57,12 +57,12 @@ Qed.
 
 Theorem link_special_mutations_owned :
   (forall dst text a k, In a (link_actions dst text) -> In k (mutated a) -> owned dst k) /\
-  (forall nc src dst ex a k, In a (fst (special_actions nc src dst ex)) -> In k (mutated a) -> owned dst k).
+  (forall nc src dst ex same a k, In a (fst (special_actions nc src dst ex same)) -> In k (mutated a) -> owned dst k).
 Proof.
   split.
   - intros dst text a k [<-|[]] [<-|[]]. reflexivity.
-  - intros nc src dst ex a k Ha Hk. unfold special_actions in Ha.
-    destruct ex; [destruct nc|]; cbn [fst app] in Ha;
+  - intros nc src dst ex same a k Ha Hk. unfold special_actions in Ha.
+    destruct ex; [destruct nc; [|destruct same]|]; cbn [fst app] in Ha;
       repeat (destruct Ha as [<-|Ha]; [try (destruct Hk; fail); try (destruct Hk as [<-|[]]; reflexivity)|]); destruct Ha.
 Qed.
 
@@ -177,3 +177,26 @@ Proof.
   intros Hn He Hb Hnb. unfold with_fault. rewrite Hn, He. cbn [fst]. apply in_or_app. right.
   apply filter_In. split; [exact Hb|]. destruct a; cbn in He; try discriminate; destruct b; try reflexivity; contradiction.
 Qed.
+
+(* a special file whose existing target is the source node itself (an alias through a symlinked directory) is refused
+   before any mutating action: in particular it is not unlinked *)
+Theorem special_alias_refused : forall nc src dst,
+  snd (special_actions nc src dst true true) = false /\
+  forall a, In a (fst (special_actions nc src dst true true)) -> mutated a = [].
+Proof.
+  intros nc src dst. unfold special_actions. destruct nc; cbn [fst snd app]; split; try reflexivity;
+    intros a Ha; repeat (destruct Ha as [<-|Ha]; [reflexivity|]); destruct Ha.
+Qed.
+
+(* a dangling symbolic link at the destination is refused before any mutating action: nothing is created through it *)
+Theorem copy_dangling_refused : forall fc src dst e,
+  ce_dst_exists e = false ->
+  snd (copy_actions_d true fc src dst e) = false /\
+  forall a, In a (fst (copy_actions_d true fc src dst e)) -> mutated a = [].
+Proof.
+  intros fc src dst e He. unfold copy_actions_d. rewrite He. cbn [negb andb fst snd]. split; [reflexivity|].
+  intros a Ha. repeat (destruct Ha as [<-|Ha]; [reflexivity|]). destruct Ha.
+Qed.
+Theorem copy_actions_d_otherwise : forall d fc src dst e,
+  d = false \/ ce_dst_exists e = true -> copy_actions_d d fc src dst e = copy_actions fc src dst e.
+Proof. intros d fc src dst e [->|He]; unfold copy_actions_d; [now rewrite Bool.andb_false_r|now rewrite He]. Qed.
